@@ -8,7 +8,14 @@ Has(ev, f) == f \in DOMAIN ev
 
 \* the order the manager reports for the resources (re)loaded by this event
 NewRes(ev) == {r.res : r \in {x \in SeqToSet(ev.rules) : Valid(x) /\ (ev.op = "all" \/ x.res = ev.res)}}
-ObsOrd(ev) == [rs \in NewRes(ev) |-> [i \in 1..Len(ev.cb[rs]) |-> ev.cb[rs][i].rule]]
+\* An observed breaker / listener record names the specification's rule `id` by that id, or - an equal
+\* rule reloaded under another id keeps its breaker and the id it was first given - by the description
+\* the rule object it is bound to was built from.
+Names(o, id, rs) == o.rule = id \/ (Has(o, "rec") /\ \E r \in rs : r.id = id /\ SameRule(o.rec, r))
+NewRules(ev) == {x \in SeqToSet(ev.rules) : Valid(x) /\ (ev.op = "all" \/ x.res = ev.res)}
+ObsOrd(ev) == [rs \in NewRes(ev) |-> [i \in 1..Len(ev.cb[rs]) |->
+                 LET c == {r.id : r \in {x \in NewRules(ev) : x.res = rs /\ Names(ev.cb[rs][i], x.id, NewRules(ev))}}
+                 IN  IF c = {} THEN "<nomatch>" ELSE CHOOSE x \in c : TRUE]]
 
 \* observed breaker states / retry instants / listener records, judged in the state after the event
 ObsOK(ev) ==
@@ -17,10 +24,12 @@ ObsOK(ev) ==
           /\ \A i \in 1..Len(order'[rs]) :
                 LET o == ev.cb[rs][i]
                     id == order'[rs][i]
-                IN  /\ o.rule = id /\ o.st = st'[id]
+                IN  /\ Names(o, id, brs') /\ o.st = st'[id]
                     /\ st'[id] = "open" => o.retry = retryAt'[id]
     /\ Has(ev, "cb") => \A rs \in DOMAIN ev.cb : rs \in DOMAIN order'
-    /\ ev.lis = log'
+    /\ Len(ev.lis) = Len(log')
+    /\ \A i \in 1..Len(log') : /\ ev.lis[i].to = log'[i].to /\ ev.lis[i].prev = log'[i].prev
+                                /\ Names(ev.lis[i], log'[i].rule, brs')
 
 TraceInit == BreakerInit /\ l = 1
 TraceNext ==
